@@ -28,7 +28,7 @@ func drawC07(rt *rapid.T) TSpec {
 	if thorough() {
 		maxTasks = 32
 	}
-	kinds := []int{tPrepare, tPrepare, tProveNonrev, tProveNonrev, tProveNonrev, tProvePlain, tProveRange, tProveList, tIssueCommit}
+	kinds := []int{tPrepare, tPrepare, tProveNonrev, tProveNonrev, tProveNonrev, tProvePlain, tProveRange, tProveList, tIssueCommit, tIssueRetry}
 	s := drawTSpec(rt, kinds, maxTasks, 4, 3)
 	s.Sequential = rapid.IntRange(0, 3).Draw(rt, "sequential") == 0
 	return s
@@ -69,6 +69,7 @@ func checkRandomnessReuse(r *kernel.Run, prop string, res *tResult) {
 	lm := pk.Params.Lm
 
 	seen := map[string]usedVal{}
+	builderSeen := map[string]bool{}
 	use := func(kind string, v *big.Int, what, proof, list string) {
 		if v == nil {
 			return
@@ -87,7 +88,7 @@ func checkRandomnessReuse(r *kernel.Run, prop string, res *tResult) {
 	for _, p := range res.Proofs {
 		var pl gabi.ProofList
 		mustUnmarshal(p.Wire, &pl)
-		listID := fmt.Sprintf("p%dt%do%d", p.Phase, p.Task, p.Op)
+		listID := fmt.Sprintf("p%dt%do%d.%d", p.Phase, p.Task, p.Op, p.Seq)
 		for li, pr := range pl {
 			id := fmt.Sprintf("%s[%d]", listID, li)
 			switch x := pr.(type) {
@@ -134,7 +135,15 @@ func checkRandomnessReuse(r *kernel.Run, prop string, res *tResult) {
 			case *gabi.ProofU:
 				secret := res.Creds[0].Led.Secret
 				use("rand:secretkey", new(big.Int).Sub(x.SResponse, new(big.Int).Mul(x.C, secret)), "randomizer of the secret key (ProofU)", id, listID)
-				use("U", x.U, "issuance commitment U", id, listID)
+				// one builder answering twice shows the same U by construction; across builders it must differ
+				if p.SameBuilder == "" || !builderSeen[p.SameBuilder] {
+					use("U", x.U, "issuance commitment U", id, listID)
+				} else {
+					r.Probe("builder-answered-twice")
+				}
+				if p.SameBuilder != "" {
+					builderSeen[p.SameBuilder] = true
+				}
 			}
 		}
 	}
